@@ -1,6 +1,8 @@
 use tevec::prelude::*;
 fn main() {
-    let v = vec![1.0f64, 2.0, 3.0];
-    let r: Vec<f64> = v.ts_vsum(0, None);
-    println!("ts_vsum(window = 0) on Vec -> {:?}", r);
+    let v = vec![1i32, 2, 3, 4];
+    let mut it = v.titer().vshift(1, Some(0));
+    let _first = Iterator::next(&mut it);
+    let out: Vec<i32> = it.collect_trusted_vec1();      // safe code: allocates size_hint (4), writes 3, set_len(4)
+    println!("{:?}", out);
 }
